@@ -936,6 +936,10 @@ val run_cli_lines :
 
 val run_cli : opts -> z -> bytes -> bytes list list res
 
+val run_tcp_table : opts -> z -> table -> bytes list -> table res
+
 val run_c : opts -> bytes -> bytes * bytes
+
+val run_t : opts -> bytes -> bytes * bytes
 
 val run_case2 : bytes -> bytes
